@@ -553,8 +553,9 @@ theorem camel_idempotent_ascii (s : String) : asciiFns.camel (asciiFns.camel s) 
     sub-mapper the serializer uses (`prefixOK`: always so for enum mappers and dicts without
     `"<field>._mapper"` entries; for an explicit nested entry it means the entry is keyed by the name
     the field has at that round and is not dict-equal to the current nested aggregate); (2) every nested
-    field is mapped to a string key under which its re-keyed nested entry is found (`trackOK`); (3) a
-    class two or more levels down has no own mapper, or nothing from above reaches it (`reaggOK`);
+    field is mapped to a string key under which its re-keyed nested entry is found (`trackOK`); (3) re-aggregating
+    a class under the dict it is handed lands, entry by entry, on that dict again (`reaggOK`: so when a class two or
+    more levels down has no own mapper, or has one that the mappers reaching it from above leave alone);
     (4) no `_deserialization_mapper`.  There the level hypotheses `levelOK` (with `Sync`) follow at
     *every* depth from the demanded domain.  With `camel_case_convert` the deserializer applies
     `TO_CAMELCASE` once more at every level; this is harmless because the conversion is idempotent
@@ -885,6 +886,26 @@ theorem region_nested_entry_example :
     regionOK upFns rtCls2 none false = true ∧ regionOK upFns rtCls2 none true = true
     ∧ rtCls upFns false (levelDomE upFns) rtCls2 (aggregate upFns true rtCls2.own rtCls2.fields none false)
         none false rtInst2 = true := by
+  decide
+
+/-- `_convert_to_camelcase` on the two snake_case names of the example (idempotent) -/
+def cmFns : StrFns := ⟨fun s => if s = "a_b" then "aB" else if s = "g_h" then "gH" else s, id, fun s => [s]⟩
+def ceG : List Fld := [.scalar "a_b" false]
+def ceMid : List Fld := [.nested "g_h" false .one { ser := [.camel] } ceG, .scalar "y" false]
+def ceTop : Cls := { own := [.camel], fields := [.nested "m" false .one { ser := [.camel] } ceMid] }
+
+/-- non-vacuity of the third clause of the region in its general form: `TO_CAMELCASE` on *every* class of a
+    three-level tree — the grand-nested class has an own mapper under mappers that reach it, but they
+    leave its keys alone — is inside the region, with `camel_case_convert` off and on; the instance is
+    inside the domain and the innermost key is the camelCase one -/
+theorem region_enum_everywhere_example :
+    regionOK cmFns ceTop none false = true ∧ regionOK cmFns ceTop none true = true
+    ∧ rtCls cmFns true (levelDomE cmFns) ceTop (aggregate cmFns true ceTop.own ceTop.fields none true)
+        none false (.obj [("m", .obj [("g_h", .obj [("a_b", .int 1)]), ("y", .int 2)])]) = true
+    ∧ isOkEq (.ok (serialize cmFns true ceTop none (.obj [("m", .obj [("g_h", .obj [("a_b", .int 1)]), ("y", .int 2)])])))
+        (fun d => match d with
+          | .obj [("m", .obj [("gH", .obj [("aB", .int 1)]), ("y", .int 2)])] => true
+          | _ => false) = true := by
   decide
 
 end Typedpy.C07
